@@ -20,6 +20,9 @@ pub enum CutKind {
     Reset,
     /// only the write direction fails (reads stay open and silent)
     WriteError,
+    /// orderly close as a TCP peer's FIN looks at first: end-of-stream on read while writes
+    /// towards it still succeed, so only the socket's own bookkeeping can keep it out
+    CloseStillWritable,
 }
 
 impl CutKind {
@@ -28,6 +31,7 @@ impl CutKind {
             CutKind::Close => "orderly-close",
             CutKind::Reset => "reset",
             CutKind::WriteError => "write-error",
+            CutKind::CloseStillWritable => "orderly-close-still-writable",
         }
     }
 }
@@ -143,7 +147,7 @@ pub fn cut_outcome(c: &CutCase) -> Outcome {
             let victim = sim.link();
             victim.to_lib.deposit(&stream[..pos]);
             match c.cut {
-                CutKind::Close => victim.to_lib.end_after_all(ReadEnd::Eof),
+                CutKind::Close | CutKind::CloseStillWritable => victim.to_lib.end_after_all(ReadEnd::Eof),
                 CutKind::Reset => victim.to_lib.end_after_all(ReadEnd::Err(std::io::ErrorKind::ConnectionReset)),
                 CutKind::WriteError => {}
             }
@@ -160,7 +164,9 @@ pub fn cut_outcome(c: &CutCase) -> Outcome {
             }
             let admitted = matches!(sim.out(va), Some(Out::Attach(Ok(_))));
             let vid: Option<Vec<u8>> = if let Some(Out::Attach(Ok(id))) = sim.out(va) { Some(id.clone()) } else { None };
-            victim.from_lib.break_writer(std::io::ErrorKind::BrokenPipe);
+            if c.cut != CutKind::CloseStillWritable {
+                victim.from_lib.break_writer(std::io::ErrorKind::BrokenPipe);
+            }
             let mid_msg = pos > hs && !ends.contains(&pos);
             if pos < hs {
                 classes.push("cut-inside-handshake".into());
@@ -185,8 +191,11 @@ pub fn cut_outcome(c: &CutCase) -> Outcome {
             let mut oks: Vec<Frames> = vec![];
             let mut errs: Vec<String> = vec![];
             let mut healthy_sent: Vec<Vec<Frames>> = vec![vec![]; healthy.len()]; // expected recv results
+            let mut sent_ok: Vec<Frames> = vec![]; // wire form of every message whose send returned Ok
             let mut failed_sends = 0usize;
             let mut failed_sends_after_observed = 0usize;
+            let mut landed_on_victim = 0usize;
+            let mut landed_on_victim_after_observed = 0usize;
             let mut ok_sends = 0usize;
             let mut req_answered: Vec<usize> = vec![0; healthy.len()];
             let mut published = 0usize;
@@ -228,9 +237,22 @@ pub fn cut_outcome(c: &CutCase) -> Outcome {
                         let n = healthy.len() + 1;
                         for i in 0..n + 1 {
                             let was_observed = observed(&victim);
-                            let a = sim.send(s, &[format!("s{}-{}", round, i).into_bytes()]);
+                            let vbefore = victim.lib_traffic_len();
+                            let m: Frames = vec![format!("s{}-{}", round, i).into_bytes(), vec![], b"x".to_vec()];
+                            let a = sim.send(s, &m);
                             match sim.run(a).await {
-                                Ok(Some(Out::Send(Ok(())))) => ok_sends += 1,
+                                Ok(Some(Out::Send(Ok(())))) => {
+                                    if victim.lib_traffic_len() != vbefore {
+                                        // a still-writable victim swallowed it
+                                        landed_on_victim += 1;
+                                        if was_observed {
+                                            landed_on_victim_after_observed += 1;
+                                        }
+                                    } else {
+                                        ok_sends += 1;
+                                        sent_ok.push(m);
+                                    }
+                                }
                                 Ok(Some(Out::Send(Err(_)))) => {
                                     failed_sends += 1;
                                     if was_observed {
@@ -248,10 +270,22 @@ pub fn cut_outcome(c: &CutCase) -> Outcome {
                         let n = healthy.len() + 1;
                         for i in 0..n + 1 {
                             let was_observed = observed(&victim);
-                            let a = sim.send(s, &[format!("q{}-{}", round, i).into_bytes()]);
+                            let vbefore = victim.lib_traffic_len();
+                            let m: Frames = vec![format!("q{}-{}", round, i).into_bytes(), vec![], b"x".to_vec()];
+                            let a = sim.send(s, &m);
                             match sim.run(a).await {
                                 Ok(Some(Out::Send(Ok(())))) => {
-                                    ok_sends += 1;
+                                    if victim.lib_traffic_len() != vbefore {
+                                        landed_on_victim += 1;
+                                        if was_observed {
+                                            landed_on_victim_after_observed += 1;
+                                        }
+                                    } else {
+                                        ok_sends += 1;
+                                        let mut w = vec![vec![]];
+                                        w.extend(m);
+                                        sent_ok.push(w);
+                                    }
                                     // whoever got it answers
                                     let mut answered = false;
                                     for (hi, (l, _)) in healthy.iter().enumerate() {
@@ -375,6 +409,22 @@ pub fn cut_outcome(c: &CutCase) -> Outcome {
                 let on_healthy: usize = healthy.iter().map(|(l, _)| l.lib_messages_prefix().map(|x| x.0.len()).unwrap_or(0)).sum();
                 if on_healthy != ok_sends {
                     fail!(f, format!("C16/{}/{}/healthy-traffic-disturbed", who, ck), "{} sends succeeded, {} messages reached healthy peers", ok_sends, on_healthy);
+                } else {
+                    // and they arrived unmodified
+                    let mut got: Vec<Frames> = healthy.iter().flat_map(|(l, _)| l.lib_messages_prefix().map(|x| x.0).unwrap_or_default()).collect();
+                    let mut want = sent_ok.clone();
+                    got.sort();
+                    want.sort();
+                    if got != want {
+                        let bad = got.iter().find(|m| !want.contains(m));
+                        fail!(
+                            f,
+                            format!("C16/{}/{}/healthy-traffic-modified", who, ck),
+                            "after a peer's connection ended, a message reached a healthy peer modified: frame lengths {:?} (sent messages have frame lengths {:?})",
+                            bad.map(|m| m.iter().map(|x| x.len()).collect::<Vec<_>>()),
+                            want.first().map(|m| m.iter().map(|x| x.len()).collect::<Vec<_>>())
+                        );
+                    }
                 }
             }
             // ---- (b) at most one error for the event
@@ -393,6 +443,18 @@ pub fn cut_outcome(c: &CutCase) -> Outcome {
                 );
             }
             // ---- (c) sends after the end was observed
+            if landed_on_victim > 0 {
+                classes.push("send-swallowed-by-a-closed-but-writable-peer".into());
+            }
+            if landed_on_victim_after_observed > 0 {
+                fail!(
+                    f,
+                    format!("C16/{}/{}/send-routed-to-dead-peer-after-its-end-was-observed", who, ck),
+                    "{} sends were written to the connection whose end the socket had already observed (of {} written to it in total)",
+                    landed_on_victim_after_observed,
+                    landed_on_victim
+                );
+            }
             if failed_sends_after_observed > 0 {
                 fail!(
                     f,
@@ -594,7 +656,7 @@ pub fn enumerated() -> Vec<CutCase> {
     let mut v = vec![];
     for kind in ALL_KINDS {
         for healthy in [1usize, 2] {
-            for cut in [CutKind::Close, CutKind::Reset] {
+            for cut in [CutKind::Close, CutKind::Reset, CutKind::CloseStillWritable] {
                 for (_, pos) in position_classes(kind, &msgs) {
                     for split in [0usize, 64] {
                         v.push(CutCase {
@@ -642,7 +704,7 @@ pub fn gen_cut(s: &mut Src<'_>) -> CutCase {
     CutCase {
         kind,
         healthy: s.range(1, 3),
-        cut: s.pick(&[CutKind::Close, CutKind::Close, CutKind::Reset, CutKind::Reset, CutKind::WriteError]),
+        cut: s.pick(&[CutKind::Close, CutKind::Close, CutKind::Reset, CutKind::Reset, CutKind::WriteError, CutKind::CloseStillWritable, CutKind::CloseStillWritable]),
         pos: s.below(total + 1),
         victim_msgs,
         split: s.pick(&[0usize, 0, 1, 30, 64, 90, 100]),
@@ -665,6 +727,9 @@ pub fn run(ctx: &Ctx) -> (Report, PropertyMeta) {
     report.sections.push(json!({"part": "random cut positions / kinds / victim traffic / healthy peer counts / tails", "cases": n}));
     report.merge(r);
 
+    if t == Tier::Thorough {
+        crate::fuzzing::campaign(ctx, &mut report, "sim", 180);
+    }
     // real transports (one thread: see C17)
     let mut ctx1 = ctx.clone();
     ctx1.threads = 1;
@@ -692,7 +757,7 @@ pub fn run(ctx: &Ctx) -> (Report, PropertyMeta) {
 
     let meta = PropertyMeta {
         level: "fault_enumeration",
-        rule: "every socket type with 1..3 healthy raw peers and one victim whose connection ends at an enumerated / generated byte position of its stream (inside the greeting, between greeting and READY, inside READY, between messages, inside flags / size / body, between frames of a multipart message) by orderly close (EOF, writes fail afterwards), reset (read error, writes fail) or write-only failure, followed by rounds of healthy-peer traffic and application calls (recv until pending; sends that rotate onto / address the victim; publishes). Oracle: (a) every healthy peer's message is still delivered exactly once in order, publishes reach healthy subscribers, successful sends land on healthy peers, and only the victim's COMPLETE messages surface; (b) recv reports at most one error for the event and the socket always reaches quiescence; (c) once the socket has observed the end (a read returned EOF/error or a write failed) no send fails because it was routed to that peer, and ROUTER send to its identity fails; (d) after observation both connection halves the library held are dropped; a connection that ends during the handshake is never admitted and is released. Real transports: after N connect-handshake-talk-disconnect cycles over TCP and IPC against a long-lived socket of every type the process's open-descriptor count and the runtime's alive-task count are within a constant of their values after 10 cycles. Non-trivial = cut strictly inside a message or inside the handshake; distinct by case".into(),
+        rule: "every socket type with 1..3 healthy raw peers and one victim whose connection ends at an enumerated / generated byte position of its stream (inside the greeting, between greeting and READY, inside READY, between messages, inside flags / size / body, between frames of a multipart message) by orderly close (EOF; writes fail afterwards, or - as with a TCP FIN - still succeed), reset (read error, writes fail) or write-only failure, followed by rounds of healthy-peer traffic and application calls (recv until pending; sends that rotate onto / address the victim; publishes). Oracle: (a) every healthy peer's message is still delivered exactly once in order, publishes reach healthy subscribers, successful sends land on healthy peers, and only the victim's COMPLETE messages surface; (b) recv reports at most one error for the event and the socket always reaches quiescence; (c) once the socket has observed the end (a read returned EOF/error or a write failed) no send fails because it was routed to that peer, and ROUTER send to its identity fails; (d) after observation both connection halves the library held are dropped; a connection that ends during the handshake is never admitted and is released. Real transports: after N connect-handshake-talk-disconnect cycles over TCP and IPC against a long-lived socket of every type the process's open-descriptor count and the runtime's alive-task count are within a constant of their values after 10 cycles. Non-trivial = cut strictly inside a message or inside the handshake; distinct by case".into(),
         assumptions: vec![
             "a closed connection is modelled as EOF on reads plus BrokenPipe on writes (a fully closed TCP peer); half-close is not generated".into(),
             "'observed' is measured at the pipe: a read returned the end marker or a write returned the injected error".into(),
